@@ -4,6 +4,7 @@ import (
 	"encoding/json"
 	"fmt"
 	"regexp"
+	"sort"
 	"strconv"
 	"strings"
 	"time"
@@ -34,6 +35,12 @@ type OpEnv struct {
 	MFaults simschema.MapperFaults `json:"mapper_faults"`
 	Valuer  simschema.ValuerPlan   `json:"valuer"`
 	IntDiv  bool                   `json:"integer_float_division,omitempty"`
+	// ValuerKind: how the valuer handed to the library is composed out of the stub and the
+	// package's own valuers (0 stub; 1 MultiValuer(NowValuer, stub); 2 NowValuer alone;
+	// 3 MapValuer of the stub's bindings; 4 MultiValuer(stub, MapValuer, NowValuer))
+	ValuerKind int `json:"valuer_kind,omitempty"`
+	// MapperKind: 0 stub; 1 MultiTypeMapper(stub, stub) for type evaluation
+	MapperKind int `json:"mapper_kind,omitempty"`
 }
 
 var selectOps = []string{
@@ -43,6 +50,7 @@ var selectOps = []string{
 	"GroupByInterval", "GroupByOffset", "Normalize", "ColumnNames", "FieldExprByName", "Names", "AliasNames",
 	"Measurements", "HasWildcard", "HasTimeExpr", "ExprNames", "RequiredPrivileges",
 	"TimeAscending", "ContainsVarRef", "IsSelector", "FieldDimensions", "BinaryExprName", "CloneExpr", "MatchSource",
+	"TimeRangeMethods", "PartitionExpr", "ConjunctionsRoundTrip", "SortFields", "ListStrings",
 }
 
 func genEnv(r *core.Rand) OpEnv {
@@ -74,6 +82,8 @@ func genEnv(r *core.Rand) OpEnv {
 	}
 	env.Valuer = v
 	env.IntDiv = r.Chance(1, 2)
+	env.ValuerKind = r.Weighted([]int{5, 2, 1, 1, 1})
+	env.MapperKind = r.Weighted([]int{6, 2, 1})
 	return env
 }
 
@@ -158,8 +168,56 @@ func newOpCtx(env *OpEnv) *opCtx {
 	c := &opCtx{env: env}
 	c.mapper = simschema.NewMapper(env.Schema, env.MFaults)
 	c.fm = c.mapper
-	c.valuer = simschema.NewValuer(&env.Valuer).(influxql.Valuer)
+	stub := simschema.NewValuer(&env.Valuer).(influxql.Valuer)
+	now := &influxql.NowValuer{Now: time.Unix(0, env.Valuer.NowNanos).UTC()}
+	if env.Valuer.NowZero {
+		now.Now = time.Time{}
+	}
+	if env.Valuer.Zone != "" {
+		if loc, err := time.LoadLocation(env.Valuer.Zone); err == nil {
+			now.Location = loc
+		}
+	}
+	mv := influxql.MapValuer{}
+	for _, k := range sortedVarNames(env.Valuer.Vars) {
+		if x, ok := env.Valuer.Vars[k].Value(); ok {
+			mv[k] = x
+		}
+	}
+	switch env.ValuerKind {
+	case 1:
+		c.valuer = influxql.MultiValuer(now, stub)
+	case 2:
+		c.valuer = now
+	case 3:
+		c.valuer = mv
+	case 4:
+		c.valuer = influxql.MultiValuer(stub, mv, now)
+	default:
+		c.valuer = stub
+	}
 	return c
+}
+
+func sortedVarNames(m map[string]simschema.VarVal) []string {
+	ks := make([]string, 0, len(m))
+	for k := range m {
+		ks = append(ks, k)
+	}
+	sortStringsInPlace(ks)
+	return ks
+}
+
+// typeMapper is the TypeMapper handed to type evaluation (the stub, or the package's own
+// MultiTypeMapper around it).
+func (c *opCtx) typeMapper() influxql.TypeMapper {
+	if c.env.MapperKind == 2 {
+		return nil // EvalType documents a nil mapper as "no type information"
+	}
+	if c.env.MapperKind == 1 {
+		return influxql.MultiTypeMapper(c.fm, c.fm)
+	}
+	return c.fm
 }
 
 func windowFor(arg int) (time.Time, time.Time) {
@@ -296,9 +354,12 @@ func (c *opCtx) applySelectOp(s *influxql.SelectStatement, op Op) (result string
 		fmt.Fprint(&sb, influxql.EvalBool(s.Condition, m))
 		return sb.String(), nil
 	case "EvalType":
-		return influxql.EvalType(pickExpr(s, op.Arg), s.Sources, c.fm).String(), nil
+		return influxql.EvalType(pickExpr(s, op.Arg), s.Sources, c.typeMapper()).String(), nil
 	case "TypeValuerEval":
 		tv := influxql.TypeValuerEval{TypeMapper: c.fm, Sources: s.Sources}
+		if c.env.MapperKind == 1 {
+			tv.TypeMapper = c.typeMapper()
+		}
 		if op.Arg%5 == 0 {
 			tv.TypeMapper = nil
 		}
@@ -364,6 +425,32 @@ func (c *opCtx) applySelectOp(s *influxql.SelectStatement, op Op) (result string
 		return "", nil
 	case "CloneExpr":
 		return core.Canon(influxql.CloneExpr(pickExpr(s, op.Arg))), nil
+	case "TimeRangeMethods":
+		_, tr, err := influxql.ConditionExpr(s.Condition, c.valuer)
+		a, b := windowFor(op.Arg)
+		x := tr.Intersect(influxql.TimeRange{Min: a, Max: b})
+		return fmt.Sprint(err, tr.IsZero(), tr.MinTime().UnixNano(), tr.MaxTime().UnixNano(), tr.MinTimeNano(), tr.MaxTimeNano(), x.MinTimeNano(), x.MaxTimeNano()), nil
+	case "PartitionExpr":
+		k := 0
+		pass, fail, err := influxql.PartitionExpr(influxql.CloneExpr(s.Condition), func(e influxql.Expr) (bool, error) {
+			k++
+			if (k+op.Arg)%7 == 0 {
+				return false, fmt.Errorf("injected: cannot classify %s", e)
+			}
+			return influxql.HasTimeExpr(e) || (k+op.Arg)%2 == 0, nil
+		})
+		return fmt.Sprint(core.Canon(pass), core.Canon(fail), err), nil
+	case "ConjunctionsRoundTrip":
+		parts := influxql.ConjunctionsToExprSlice(influxql.CloneExpr(pickExpr(s, op.Arg)))
+		return core.Canon(influxql.ExprsToConjunction(parts...)), nil
+	case "SortFields":
+		cl := s.Clone()
+		sort.Sort(cl.Fields)
+		refs := influxql.VarRefs(influxql.ExprNames(pickExpr(s, op.Arg)))
+		sort.Sort(refs)
+		return cl.Fields.String() + fmt.Sprint(refs.Strings()), nil
+	case "ListStrings":
+		return s.Sources.String() + "|" + influxql.Measurements(s.Sources.Measurements()).String() + "|" + s.Dimensions.String() + "|" + s.SortFields.String(), nil
 	case "MatchSource":
 		// IsSystemName and friends on every measurement
 		var sb strings.Builder
@@ -474,9 +561,11 @@ func (C13) Exec(pi interface{}) *core.RunResult {
 		var repl *influxql.SelectStatement
 		verifhook.BeginOp(opBudget)
 		pan := core.Guard(func() {
-			if isSel {
+			_, isExplain := st.(*influxql.ExplainStatement)
+			if isSel && !(isExplain && op.Arg%4 == 0) {
 				result, repl = ctx.applySelectOp(sel, op)
 			} else {
+				// statement-level operations (also on the EXPLAIN wrapper itself)
 				result = applyStatementOp(st, op)
 			}
 		})
